@@ -594,4 +594,10 @@ def rules(model: Model, tier: str) -> List[RuleResult]:
     _tuple_out(model, P)
     from .c07 import _tensor_packer
     _tensor_packer(model, P)
-    return [A, I, Sr, N, P, M]
+    from ..rules import autograd as _ac
+    _R11 = RuleResult(PROP, "AC11", "every exit of the public functional returns the Function's output; forward's solution comes only from the dispatched implementation; operands unchanged", min_instances=2)
+    for _cn in ['_Quadrature']:
+        _fc = _ac.get_fncls(model, _cn)
+        _ac.ac11_wrapper_returns(model, _fc, _R11)
+        _ac.ac11_forward_provenance(model, _fc, _R11)
+    return [A, I, Sr, N, P, M, _R11]
